@@ -617,6 +617,11 @@ def boot_modules(proc):
     lsync.SemLock._rand = _NameSeq()
     mpsync.SemLock._rand = lsync.SemLock._rand
     # stdlib pieces that are stubbed (not loky code)
+    def _info(msg, *a, _pid=proc.pid):
+        run = RT.run
+        if run is not None and isinstance(msg, str) and msg.startswith(("Shutting down worker", "Memory leak", "Could not acquire", "Main process did not")):
+            run.obs.notes.append(("mpinfo", _pid, RT.sched.now, msg[:48]))
+    mpu.info = _info
     mpu._close_stdin = lambda: None
     mpu._flush_std_streams = lambda: None
     mprt._resource_tracker = _StubMpTracker(proc)
